@@ -142,6 +142,7 @@ func RunFamily(c *core.Ctx, family string, bound, shardsPerProg, maxExecsPerJob 
 	c.Cov["max_points_per_execution"] = maxPts
 	c.Cov["preemption_bound_completed"] = bound
 	if capped {
+		c.Cov["preemption_bound_completed"] = fmt.Sprintf("bound %d attempted and NOT completed for every program (see capped)", bound)
 		c.Cov["exhaustive"] = false
 		c.Cov["capped"] = fmt.Sprintf("per-job execution cap %d hit in at least one job", maxExecsPerJob)
 		if tb, ok := c.Cov["time_budget"]; ok {
